@@ -1,8 +1,10 @@
 import Driver.Plugin
+import Driver.Plug.Sched
 /-! The list of plug-in models (one import and one entry per model). -/
 namespace Driver
 
 def plugins : List (String × Plug) := [
+  ("sched", Driver.PlugSched.plug)
 ]
 
 end Driver
